@@ -165,7 +165,10 @@ struct Pool {
     std::string last_note;   // note of the crashed worker, valid inside on_crash
     Pool(int j, double limit = 0) : jobs(j), case_limit_s(limit) {}
 
-    // run_case(idx, result) ; on_crash(idx, description, result) describes the crashed case
+    // run_case(idx, result) ; on_crash(idx, description, result) describes the crashed case.
+    // Workers checkpoint their cumulative Result a few times per second; after a crash the worker
+    // is restarted from its last checkpoint with the crashed case(s) skipped, so no case and no
+    // count is lost.
     void run(uint64_t N, const std::function<void(uint64_t, Result&)>& run_case,
              const std::function<void(uint64_t, const std::string&, Result&)>& on_crash, Result& total,
              const std::function<bool()>& expired = nullptr) {
@@ -175,30 +178,36 @@ struct Pool {
         volatile int* stop = (volatile int*)mmap(nullptr, 4096, PROT_READ | PROT_WRITE, MAP_SHARED | MAP_ANONYMOUS, -1, 0);
         std::string dir = scratch_dir();
         std::vector<pid_t> pid(J, -1); std::vector<uint64_t> next(J); std::vector<int> gen(J, 0);
+        std::vector<std::set<uint64_t>> skip(J);
         for (int w = 0; w < J; w++) next[w] = w;
+        auto rfile = [&](int w) { return dir + "/r" + std::to_string(w) + "." + std::to_string(gen[w]); };
         auto spawn = [&](int w) {
-            std::string rf = dir + "/r" + std::to_string(w) + "." + std::to_string(gen[w]);
+            std::string rf = rfile(w);
             std::string ef = dir + "/e" + std::to_string(w);
             fflush(stdout); fflush(stderr);
+            slots[w].cur = next[w]; slots[w].done = next[w]; slots[w].note[0] = 0;
             pid_t p = fork();
             if (p < 0) { perror("fork"); exit(2); }
             if (p == 0) {
                 int fd = open(ef.c_str(), O_WRONLY | O_CREAT | O_TRUNC, 0600); if (fd >= 0) { dup2(fd, 2); close(fd); }
-                Result r; worker_note() = slots[w].note; slots[w].note[0] = 0;
+                Result r; worker_note() = slots[w].note;
+                double last = now_s();
                 for (uint64_t i = next[w]; i < N; i += J) {
                     if (*stop) { r.deadline_hit = true; break; }
-                    slots[w].cur = i; slots[w].started = 1;
+                    if (skip[w].count(i)) continue;
+                    slots[w].cur = i;
                     if (case_limit_s > 0) alarm((unsigned)case_limit_s + 1);
                     run_case(i, r);
                     if (case_limit_s > 0) alarm(0);
-                    slots[w].done = i + 1;
+                    double t = now_s();
+                    if (t - last > 0.25) { r.save(rf + ".tmp"); rename((rf + ".tmp").c_str(), rf.c_str()); slots[w].done = i + J; last = t; }
                 }
-                r.save(rf);
+                r.save(rf + ".tmp"); rename((rf + ".tmp").c_str(), rf.c_str()); slots[w].done = N + J;
                 _exit(0);
             }
             pid[w] = p;
         };
-        for (int w = 0; w < J; w++) { slots[w].cur = next[w]; slots[w].started = 0; spawn(w); }
+        for (int w = 0; w < J; w++) spawn(w);
         int live = J;
         while (live > 0) {
             int st = 0; pid_t p = waitpid(-1, &st, WNOHANG);
@@ -206,8 +215,8 @@ struct Pool {
             if (p < 0) break;
             int w = -1; for (int i = 0; i < J; i++) if (pid[i] == p) w = i;
             if (w < 0) continue;
-            std::string rf = dir + "/r" + std::to_string(w) + "." + std::to_string(gen[w]);
-            if (WIFEXITED(st) && WEXITSTATUS(st) == 0) { Result r; r.load(rf); total.merge(r); pid[w] = -1; live--; continue; }
+            { Result r; r.load(rfile(w)); total.merge(r); }
+            if (WIFEXITED(st) && WEXITSTATUS(st) == 0) { pid[w] = -1; live--; continue; }
             // abnormal: attribute to current case
             uint64_t idx = slots[w].cur;
             std::string err = slurp(dir + "/e" + std::to_string(w));
@@ -219,8 +228,8 @@ struct Pool {
             last_note = std::string(slots[w].note);
             on_crash(idx, desc, total);
             total.count("worker_crashes");
-            // cases completed by the dead worker in this generation are lost from its Result; count them
-            gen[w]++; next[w] = idx + J;
+            skip[w].insert(idx);
+            gen[w]++; next[w] = slots[w].done;   // resume after the last checkpoint
             if (next[w] < N && !*stop) spawn(w); else { pid[w] = -1; live--; }
         }
         munmap((void*)slots, sizeof(Slot) * J); munmap((void*)stop, 4096);
